@@ -19,9 +19,9 @@ package utils
 //@   requires r != nil
 //@   modifies r.pos, r.avail, r.failed, mem
 //@   allocates
-//@   top-ensures err == nil ==> n >= 0
+//@   top-ensures err == nil ==> n >= 0 && n < 1152921504606846976
 //@   loop 0:
-//@     invariant n >= 0
+//@     invariant n >= 0 && n < 1152921504606846976
 
 //@ func SkipCRLF(reader) err
 //@   props C03, C14
